@@ -39,6 +39,29 @@ type DirectiveDefinition struct {
 	FieldCollectionFilter func(arguments map[string]interface{}) bool
 }
 
+// VisibleArguments returns the arguments a request with the given features can see and use: those
+// whose type's required features are all enabled. An argument of a feature-gated type is treated as
+// if it were not defined.
+func (d *DirectiveDefinition) VisibleArguments(features FeatureSet) map[string]*InputValueDefinition {
+	allVisible := true
+	for _, arg := range d.Arguments {
+		if !arg.Type.TypeRequiredFeatures().IsSubsetOf(features) {
+			allVisible = false
+			break
+		}
+	}
+	if allVisible {
+		return d.Arguments
+	}
+	ret := make(map[string]*InputValueDefinition, len(d.Arguments))
+	for name, arg := range d.Arguments {
+		if arg.Type.TypeRequiredFeatures().IsSubsetOf(features) {
+			ret[name] = arg
+		}
+	}
+	return ret
+}
+
 func referencesDirective(node interface{}, directive *DirectiveDefinition) bool {
 	visited := map[interface{}]struct{}{}
 	foundReference := false
